@@ -33,6 +33,8 @@ for c in $P $EXTRA; do
 [$c] $out"
 done
 git -C /repo checkout -- . ; git -C /repo clean -qfd >/dev/null
+# the evidence written by a run against a changed tree is not evidence of the unchanged tree
+for c in $P $EXTRA $CH; do git -C /verif checkout -q -- evidence/$c.json 2>/dev/null; done
 mkdir -p $D && cp $O/patch.diff $D/ && cp -r $O/demo $D/ 2>/dev/null
 python3 - "$O/meta.json" "$D/meta.json" "$base_ok" "$with_ok" "$res" <<'PY'
 import json,sys
